@@ -47,8 +47,65 @@ def fmod (x y : Float) : Float :=
     let r := a % b
     if r == 0 then (if nx then -0.0 else 0.0) else ofParts nx r e
 
-/-- digits of the exact decimal expansion when it has ≤ 15 significant digits (then it is what
-Rust's shortest round-trip `Display` prints); otherwise the `unmodelled` marker -/
+/-! Exact decimal conversion through big naturals.  A rational is a pair `(num, den)`. -/
+
+def rle (a b : Nat × Nat) : Bool := a.1 * b.2 ≤ b.1 * a.2
+def rlt (a b : Nat × Nat) : Bool := a.1 * b.2 < b.1 * a.2
+
+/-- `10^k` as a rational, `k` an integer -/
+def pow10r (k : Int) : Nat × Nat := if k ≥ 0 then (10 ^ k.toNat, 1) else (1, 10 ^ (-k).toNat)
+def pow2r (k : Int) : Nat × Nat := if k ≥ 0 then (2 ^ k.toNat, 1) else (1, 2 ^ (-k).toNat)
+def rmul (a b : Nat × Nat) : Nat × Nat := (a.1 * b.1, a.2 * b.2)
+def radd (a b : Nat × Nat) : Nat × Nat := (a.1 * b.2 + b.1 * a.2, a.2 * b.2)
+def rsub (a b : Nat × Nat) : Nat × Nat := (a.1 * b.2 - b.1 * a.2, a.2 * b.2)
+
+/-- smallest `k` with `v < 10^k`, searched upwards from `k0` -/
+def decExpUp (v : Nat × Nat) : Nat → Int → Int
+  | 0, k => k
+  | fuel + 1, k => if rlt v (pow10r k) then k else decExpUp v fuel (k + 1)
+
+def decExpDown (v : Nat × Nat) : Nat → Int → Int
+  | 0, k => k
+  | fuel + 1, k => if rle (pow10r (k - 1)) v then k else decExpDown v fuel (k - 1)
+
+/-- the shortest decimal digit string that identifies the double `m·2^e` (then the closest one),
+with its decimal exponent `k`: value ≈ 0.d₁d₂… × 10^k.  This is what Rust's `Display` prints. -/
+def shortestDigits (m : Nat) (e : Int) : Str × Int :=
+  let v : Nat × Nat := rmul (m, 1) (pow2r e)
+  let halfUp := pow2r (e - 1)
+  let halfDown := if m == 2 ^ 52 && e > -1074 then pow2r (e - 2) else pow2r (e - 1)
+  let lo := rsub v halfDown
+  let hi := radd v halfUp
+  let incl := m % 2 == 0
+  let inside (c : Nat × Nat) : Bool :=
+    if incl then rle lo c && rle c hi else rlt lo c && rlt c hi
+  -- 10^(k-1) ≤ v < 10^k
+  let k0 : Int := decExpUp v 800 (-330)
+  let k := decExpDown v 10 k0
+  let rec go : Nat → Nat → Str × Int
+    | 0, _ => ([48], k)
+    | fuel + 1, n =>
+      let scale := pow10r (k - n)
+      -- q = floor (v / scale)
+      let q := (v.1 * scale.2) / (v.2 * scale.1)
+      let c1 := rmul (q, 1) scale
+      let c2 := rmul (q + 1, 1) scale
+      let d1 := rsub v c1
+      let d2 := rsub c2 v
+      let firstLow := rlt d1 d2 || (d1.1 * d2.2 == d2.1 * d1.2 && q % 2 == 0)
+      let pick : Option Nat :=
+        if firstLow then (if inside c1 && q > 0 then some q else if inside c2 then some (q + 1) else none)
+        else (if inside c2 then some (q + 1) else if inside c1 && q > 0 then some q else none)
+      match pick with
+      | some c =>
+        let ds := natToStr c
+        -- a carry makes n+1 digits: 10^n
+        let k' := if ds.length > n then k + 1 else k
+        ((ds.reverse.dropWhile (· == 48)).reverse, k')
+      | none => go fuel (n + 1)
+  go 17 1
+
+/-- `f64::to_string` (Rust `Display`: shortest round-trip digits, never an exponent) -/
 def floatToStr (d : Float) : Str :=
   if d.isNaN then sOf "NaN"
   else if d.isInf then (if d < 0.0 then sOf "-inf" else sOf "inf")
@@ -56,25 +113,35 @@ def floatToStr (d : Float) : Str :=
     let (neg, m, e) := decode d
     let sign : Str := if neg then [45] else []
     if m == 0 then sign ++ [48]
-    else if e ≥ 0 then
-      let n := m * 2 ^ e.toNat
-      let ds := natToStr n
-      let sig := (ds.reverse.dropWhile (· == 48)).length
-      if sig ≤ 15 then sign ++ ds else [unmodelled]
     else
-      -- m / 2^k = (m * 5^k) / 10^k
-      let k := (-e).toNat
-      let num := m * 5 ^ k
-      let ip := num / 10 ^ k
-      let fp := num % 10 ^ k
-      let fds := natToStr fp
-      let fds := List.replicate (k - fds.length) 48 ++ fds
-      let fds := (fds.reverse.dropWhile (· == 48)).reverse
-      let ids := natToStr ip
-      let all := (ids ++ fds).dropWhile (· == 48)
-      if all.length ≤ 15 then
-        sign ++ ids ++ (if fds.isEmpty then [] else 46 :: fds)
-      else [unmodelled]
+      let (ds, k) := shortestDigits m e
+      let n : Int := ds.length
+      if k ≤ 0 then sign ++ [48, 46] ++ List.replicate (-k).toNat 48 ++ ds
+      else if k < n then sign ++ ds.take k.toNat ++ [46] ++ ds.drop k.toNat
+      else sign ++ ds ++ List.replicate (k - n).toNat 48
+
+/-- nearest double (ties to even) of the decimal `m10 · 10^e10` -/
+def decimalToFloat (m10 : Nat) (e10 : Int) : Float :=
+  if m10 == 0 then 0.0
+  else if e10 > 400 then (1.0 / 0.0)
+  else if e10 < -500 then 0.0
+  else
+    let v : Nat × Nat := rmul (m10, 1) (pow10r e10)
+    -- e2 with 2^52 ≤ v / 2^e2 < 2^53, at least -1074
+    let l : Int := (Nat.log2 v.1 : Int) - (Nat.log2 v.2 : Int)
+    let e2a : Int := l - 52
+    -- adjust: ensure v / 2^e2 < 2^53 and ≥ 2^52
+    let fix (e2 : Int) : Int :=
+      let s := rmul v (pow2r (-e2))
+      if rle (2 ^ 53, 1) s then e2 + 1 else if rlt s (2 ^ 52, 1) then e2 - 1 else e2
+    let e2 := fix (fix e2a)
+    let e2 := if e2 < -1074 then -1074 else e2
+    let s := rmul v (pow2r (-e2))
+    let q := s.1 / s.2
+    let r := s.1 % s.2
+    -- round half to even
+    let q := if 2 * r > s.2 || (2 * r == s.2 && q % 2 == 1) then q + 1 else q
+    (Float.ofNat q).scaleB e2
 
 /-- `str::parse::<f64>` for `-?digits*(.digits*)?([eE][+-]?digits+)?` -/
 def parseFloat (t : Str) : Float :=
@@ -90,10 +157,12 @@ def parseFloat (t : Str) : Float :=
     | _ :: r => (digitsToNat r 0 : Int)
     | [] => 0
   let m := digitsToNat (ip ++ fp) 0
+  -- huge exponents: clamp (the result is 0 or inf anyway once |e10| is beyond the double range
+  -- by more than the number of digits)
+  let nd : Int := (ip ++ fp).length
   let e10 : Int := ex - fp.length
-  let f : Float :=
-    if e10 ≥ 0 then Float.ofScientific (m * 10 ^ (min e10.toNat 400)) false 0
-    else Float.ofScientific m true (min (-e10).toNat 400)
+  let e10 := if e10 > 400 + 0 then 401 else if e10 + nd < -400 then -501 else e10
+  let f := decimalToFloat m e10
   if neg then -f else f
 
 def floatToIndex (v : Float) : Option Int :=
@@ -513,6 +582,16 @@ def handle : List String → String
       let (ts, cut) := tokens stops (t.length + 2) t
       " ".intercalate (ts.map showToken) ++ (if cut then " CUT" else "")
     | _, _ => "bad-op"
+  -- self tests of the Float instance against Rust: `fstr <bits hex>` = f64::to_string,
+  -- `fparse <text hex>` = bits of str::parse::<f64>
+  | ["fstr", b] =>
+    match hexNat? b.toList with
+    | some n => hexOfStr (floatToStr (Float.ofBits n.toUInt64))
+    | none => "bad-op"
+  | ["fparse", t] =>
+    match strOf? t.toList with
+    | some t => hex16 (parseFloat t).toBits.toNat
+    | none => "bad-op"
   | ["parse", t] =>
     match strOf? t.toList with
     | some t => showPRes (parse t)
